@@ -1162,7 +1162,7 @@ int main(int argc, char **argv)
 	        "Enumeration: (a) levels {1,2,3} x every offer from the parameter product in every parameter order + malformed/duplicate/unknown/5+ parameter offers + all ordered pairs of 13 offers in one header (', ' and ',') or two headers; "
 	        "(b) every accepted parameter set x 7 payloads x every fragmentation into <= 3 fragments with prefix sizes from {1,2,7,64} (+rest, rest may be empty) x 3 consecutive messages per connection; "
 	        "(c) every compressed payload of the length bound (also as two fragments for length <= 1) and every single-byte substitution of valid compressed messages");
-	fprintf(f, ",\n  \"bounds\": {\"levels_negotiation\": [1,2,3], \"levels_roundtrip\": %s, \"window_bits_lattice\": %s, \"payloads\": [\"empty\",\"1byte\",\"tiny4\",\"noise100\",\"rep400\",\"mixed500\",\"wide5000\"], "
+	fprintf(f, ",\n  \"bounds\": {\"levels_negotiation\": [1,2,3], \"levels_roundtrip\": %s, \"window_bits_lattice\": %s, \"payloads\": [\"empty\",\"1byte\",\"tiny4\",\"noise100\",\"rep400\",\"mixed500\",\"wide5000\",\"noise65530\",\"rep70000\"], "
 	           "\"fragment_prefix_sizes\": [1,2,7,64], \"max_fragments\": 3, \"messages_per_connection\": %d, \"corrupt_configs\": %s, \"corrupt_max_len\": %d, \"corrupt_substitution_messages\": %s, \"corrupt_peak_limit_bytes\": %zu, \"offers\": %zu, \"accepted_parameter_sets\": %zu},\n",
 	        g_thorough ? "[2,1,3]" : "[2]", g_thorough ? "\"absent, valueless, 8..15\"" : "\"absent, valueless, 9,10,12,15\"", NMSG, g_thorough ? "[\"L2 permessage-deflate\",\"L1 permessage-deflate\",\"L3 permessage-deflate; client_max_window_bits=8\"]" : "[\"L2 permessage-deflate\"]", g_thorough ? 2 : 1, g_thorough ? "[\"mixed500\",\"rep400\",\"noise100\"]" : "[\"mixed500\"]", COR_PEAK_LIMIT,
 	        (ss[SEC_NEG].to - ss[SEC_NEG].from) / 3, g_nsets);
